@@ -452,9 +452,13 @@ mutual
     | k :: ks => treeNamespaces k ++ kidsNamespaces ks
 end
 
-/-- a caller mapping as `Namespaces` holds it: prefixes are unique keys, no prefix contains a colon -/
-def NsMapOk (nsmap : Dict) : Prop :=
-  (dkeys nsmap).Nodup ∧ ∀ p ∈ dkeys nsmap, ':' ∉ p.toList
+/-- a caller mapping as `Namespaces` holds it: prefixes are unique keys, no prefix contains a
+    colon, and the two global prefixes are bound to their namespaces -/
+structure NsMapOk (nsmap : Dict) : Prop where
+  keysNodup : (dkeys nsmap).Nodup
+  noColon : ∀ p ∈ dkeys nsmap, ':' ∉ p.toList
+  xml : dget nsmap "xml" = some Gen.xmlNamespace
+  xmlns : dget nsmap "xmlns" = some Gen.xmlnsNamespace
 
 /-- the shape of a collected prefix: empty, or `q:` with non-empty colon-free `q` -/
 def PrefixShape (p : String) : Prop :=
@@ -466,7 +470,10 @@ structure PMapOk (nsmap m : Dict) (t : Node) : Prop where
   injective : ∀ ns₁ ns₂ p, dget m ns₁ = some p → dget m ns₂ = some p → ns₁ = ns₂
   emptyNs : ∀ p, dget m "" = some p → p = ""
   shape : ∀ ns p, dget m ns = some p → PrefixShape p
-  caller : ∀ ns q p, lookupPrefix nsmap ns = some q → q ≠ "" → dget m ns = some p → p = q ++ ":"
+  caller : ∀ ns q p, ns ≠ "" → lookupPrefix nsmap ns = some q → q ≠ "" → dget m ns = some p →
+    p = q ++ ":"
   keysNodup : (dkeys m).Nodup
+  xmlPrefix : ∀ ns, dget m ns = some "xml:" → ns = Gen.xmlNamespace
+  xmlnsPrefix : ∀ ns, dget m ns = some "xmlns:" → ns = Gen.xmlnsNamespace
 
 end Delb.Ser
